@@ -10,10 +10,11 @@ git apply $OUT/demo.diff || { echo "demo.diff does not apply"; exit 2; }
 CARGO_NET_OFFLINE=true cargo test --offline 2>&1 | grep -E "^test result|FAILED|failed" | head -5 > $OUT/run_demo_only.txt
 git reset -q --hard && git clean -fdq -e target
 git apply $OUT/patch.diff || { echo "patch.diff does not apply"; exit 2; }
+CARGO_NET_OFFLINE=true cargo build --offline 2>&1 | grep -E "^error|Finished" | head -3 > $OUT/run_patch_build.txt
 CARGO_NET_OFFLINE=true cargo test --offline 2>&1 | grep -E "^test result|FAILED|failed" | head -5 > $OUT/run_patch_only.txt
 git apply $OUT/demo.diff || { echo "demo.diff does not apply on patch"; exit 2; }
 CARGO_NET_OFFLINE=true cargo test --offline 2>&1 | grep -E "^test result|FAILED|failed|^test .* FAILED" | head -8 > $OUT/run_patch_demo.txt
 git reset -q --hard && git clean -fdq -e target
 echo "--- demo only (expect all pass)"; cat $OUT/run_demo_only.txt
-echo "--- patch only (expect 209 pass)"; cat $OUT/run_patch_only.txt
+echo "--- patch only: cargo build + suite (expect Finished, 209 pass)"; cat $OUT/run_patch_build.txt $OUT/run_patch_only.txt
 echo "--- patch + demo (expect demo fails)"; cat $OUT/run_patch_demo.txt
